@@ -264,6 +264,11 @@ def run(analysis: Analysis, tier: str) -> RuleResult:
     c03.conformance(analysis, _Lemma)
     c03.header_rules(analysis, _Lemma)
     c03.validators_total(analysis, _Lemma)
+    # lemma: the pump's send is safe against the reader thread clearing the connection between its check and
+    # its use (the path analysis itself is single-threaded): snapshot discipline C16-R1..R3 of this run
+    from . import c16
+
+    c16.send_discipline(analysis, _Lemma)
 
     common.check_no_key_removal(analysis, res, "C01-INV")
     common.check_key_identity(analysis, res, "C01-INV")
